@@ -141,7 +141,7 @@ def step (st : St) (l : String) : St × String :=
     | some g => (st, s!"ix={ixWord (lookupA HF.real g.ix (unhex h))}")
   | "addr" :: "rpc" :: h :: rest =>
     let a := unhex h
-    let limit := numArg rest "limit" 1000
+    let limit := effLimit (numArg rest "limit" 1000)
     let before := (strArg rest "before").map unhex
     let upto := (strArg rest "until").map unhex
     -- most recent epoch first (getGsfaReadersInEpochDescendingOrder)
